@@ -23,7 +23,8 @@ where
 
     for i in new_data.data.len()..=new_data.end_of_constant_data {
         let data = from.get(i)?;
-        new_data.cache_add(data.clone())?;
+        // instructions name constants by address: copy them one for one, even if two of them are equal
+        new_data.push_keeping_address(data.clone());
     }
 
     for data in retain_data {
